@@ -4,6 +4,7 @@ Every axiom is instantiated only on applications that occur in the DAG; the list
 printed in the evidence (it is part of the trusted base).  All schemes are true statements about the real functions
 (pow on non-negative bases, exp, ln, sin, cos, atan2 ...); constants are handled with outward-rounded enclosures.
 """
+import os
 import struct
 from fractions import Fraction
 
@@ -298,4 +299,38 @@ def ground_axioms(enc, ob):
             add("atan2(y,x) = t (mod 2 pi) when (y,x) is a positive multiple of (sin t, cos t); = t + pi when a negative multiple",
                 f"(and (=> (and {par} (> {dot} 0.0)) {absle(f'(- {T} {N(t)} (* {fr(2 * PI)} (to_real {k})))', tol)}) "
                 f"(=> (and {par} (< {dot} 0.0)) {absle(f'(- {T} {N(t)} {fr(PI)} (* {fr(2 * PI)} (to_real {k})))', tol)}))")
+    # (D) enclosures of x^p (constant p > 0, p != 1) between chords and tangents on a geometric grid of base values: x^p is
+    # concave for p < 1 (tangents above, chords below) and convex for p > 1 (tangents below, chords above). The grid values
+    # a^p come from libm (error < 1e-15 relative) and are moved outward by 1e-12 relative, so every instance is a theorem.
+    if os.environ.get("PV_POW_ENCLOSURES", "1") != "0":
+        GRID = [1e-6, 1e-4, 1e-3, 4e-3, 0.01, 0.025, 0.05, 0.1, 0.18, 0.3, 0.45, 0.65, 0.85, 1.0, 1.25, 1.6, 2.0, 3.0, 4.5, 7.0, 11.0,
+                18.0, 30.0, 50.0, 100.0, 250.0, 1000.0]
+        up = lambda v: v * (1 + 1e-12) if v >= 0 else v * (1 - 1e-12)
+        dn = lambda v: v * (1 - 1e-12) if v >= 0 else v * (1 + 1e-12)
+        for (x, pnode), i in pows:
+            pv = cval(nodes, pnode)
+            if pv is None or pv <= 0 or pv == 1.0 or enc.simple_exponent(pnode) is not None:
+                continue
+            X, R = N(x), N(i)
+            concave = pv < 1
+            for a in GRID:
+                c, sl = a ** pv, pv * a ** (pv - 1)
+                if concave:   # R <= tangent
+                    add("x^p below its tangents (p < 1) / above its tangents (p > 1), x >= 0",
+                        f"(=> (>= {X} 0.0) (and (=> (>= {X} {fr(a)}) (<= {R} (+ {fr(up(c))} (* {fr(up(sl))} (- {X} {fr(a)}))))) "
+                        f"(=> (<= {X} {fr(a)}) (<= {R} (+ {fr(up(c))} (* {fr(dn(sl))} (- {X} {fr(a)})))))))")
+                else:         # R >= tangent
+                    add("x^p below its tangents (p < 1) / above its tangents (p > 1), x >= 0",
+                        f"(=> (>= {X} 0.0) (and (=> (>= {X} {fr(a)}) (>= {R} (+ {fr(dn(c))} (* {fr(dn(sl))} (- {X} {fr(a)}))))) "
+                        f"(=> (<= {X} {fr(a)}) (>= {R} (+ {fr(dn(c))} (* {fr(up(sl))} (- {X} {fr(a)})))))))")
+            pts = [0.0] + GRID
+            for a, b in zip(pts, pts[1:]):
+                A, Bv = a ** pv, b ** pv
+                w = b - a
+                if concave:   # R >= chord = A (b-x)/w + B (x-a)/w
+                    add("x^p above its chords (p < 1) / below its chords (p > 1) on each grid interval",
+                        f"(=> (and (>= {X} {fr(a)}) (<= {X} {fr(b)})) (>= (* {R} {fr(w)}) (+ (* {fr(dn(A))} (- {fr(b)} {X})) (* {fr(dn(Bv))} (- {X} {fr(a)})))))")
+                else:
+                    add("x^p above its chords (p < 1) / below its chords (p > 1) on each grid interval",
+                        f"(=> (and (>= {X} {fr(a)}) (<= {X} {fr(b)})) (<= (* {R} {fr(w)}) (+ (* {fr(up(A))} (- {fr(b)} {X})) (* {fr(up(Bv))} (- {X} {fr(a)})))))")
     return ax[:basic_len], ax[basic_len:], sorted(names)
